@@ -35,7 +35,7 @@ Section Ctor.
     | Some fi => fi < length readers /\ f_isset (rd readers fi) = false
                  /\ can_name_match (rd readers fi) p tm ic = true
                  /\ s_has ws (f_name p) = true
-                 /\ 1 <= flagcount p
+                 /\ flagcount p = 1
                  /\ just e fns true (rd readers fi) p
     | None => flagcount p = 0
     end.
@@ -101,7 +101,7 @@ Section Ctor.
         - unfold flagcount, has_func, b2n. simpl.
           assert (N : mf_name fn <> "") by (apply fn_names; apply Hin; left; auto).
           destruct (String.eqb_spec (mf_name fn) ""); [congruence|]. simpl.
-          destruct (f_canassign (rd ps k)), (f_isconv (rd ps k)), (f_canmap (rd ps k)), (f_caneach (rd ps k)); simpl; lia.
+          rewrite Ha, Hc, A, B. reflexivity.
         - unfold just, has_func. simpl. rewrite Ha, Hc, A, B.
           repeat split; try discriminate. intros _. exists fn. repeat split; auto. apply Hin. left; auto. }
       assert (E1 : f_ty (rd (upd ps k g) k) = f_ty (rd ps k)) by (rewrite rd_upd, Nat.eqb_refl by auto; reflexivity).
@@ -141,7 +141,7 @@ Section Ctor.
       split; [|split; [apply s_has_add_same|split]].
       + rewrite <- Hnm. apply can_name_match_core; [apply core_eq_refl|].
         apply (keeps_core_eq (fun p => set_target (Some fi) (set_canassign p))). apply kc_comp; [apply kc_target | apply kc_canassign].
-      + unfold flagcount, b2n. simpl. lia.
+      + unfold flagcount, b2n, has_func in *. simpl. rewrite z2, z3, z4, z5. reflexivity.
       + unfold just, has_func in *. simpl. simpl in z3. rewrite z2, z3, z4, z5.
         repeat split; try discriminate. intros _. rewrite <- (match_type_same _ _ _ _ _ M). reflexivity.
     - destruct conv eqn:Cv.
@@ -156,7 +156,7 @@ Section Ctor.
         split; [|split; [apply s_has_add_same|split]].
         * rewrite <- Hnm. apply can_name_match_core; [apply core_eq_refl|].
           apply (keeps_core_eq (fun p => set_target (Some fi) (set_isconv (f_ty (rd ps k)) p))). apply kc_comp; [apply kc_target | apply kc_isconv].
-        * unfold flagcount, b2n. simpl. lia.
+        * unfold flagcount, b2n, has_func in *. simpl. rewrite z1, z3, z4, z5. reflexivity.
         * unfold just, has_func in *. simpl. simpl in z3. rewrite z1, z3, z4, z5.
           destruct (match_type_conv _ _ _ _ _ M eq_refl eq_refl) as (a & b & c).
           repeat split; try discriminate; auto.
@@ -192,7 +192,7 @@ Definition pfinal (e : env) (tm : tagmap) (ic : bool) (fns : list mfunc) (reader
   match f_target p with
   | Some fi => f_zero p = false /\ fi < length readers /\ f_isset (rd readers fi) = false
                /\ can_name_match (rd readers fi) p tm ic = true
-               /\ s_has ws (f_name p) = true /\ 1 <= flagcount p
+               /\ s_has ws (f_name p) = true /\ flagcount p = 1
                /\ just e fns true (rd readers fi) p
   | None => f_zero p = true
   end.
@@ -414,5 +414,117 @@ Proof.
   - apply (map_eq_nth fst cp_path xs (j_dst_ctor jb) (([] : path), CZero (TBasic BBool)) cdummy); [lia|].
     intros k Hk. destruct (Qs k (([] : path), CZero (TBasic BBool))) as (X & _); [lia|]. exact X.
   - apply (Forall2_nth_intro _ xs (j_dst_ctor jb) (([] : path), CZero (TBasic BBool)) cdummy); [lia|].
+    intros k Hk. destruct (Qs k (([] : path), CZero (TBasic BBool))) as (_ & X); [lia|]. exact X.
+Qed.
+
+(* ---------------------------------------------------------------- FromX *)
+Lemma prepare_ctor_src jb pr :
+  prepare jb = Some pr -> fn_names_ok jb ->
+  length (pr_sctor pr) = length (j_src_ctor jb)
+  /\ (forall j, j < length (pr_sctor pr) ->
+        core_eq (rd (map ctor_field (j_src_ctor jb)) j) (rd (pr_sctor pr) j)
+        /\ (j_src_ctor jb <> [] ->
+            pfinal (j_env jb) [] (j_ic jb) (j_funcs jb) (s_dst (pr_s0 pr)) (s_wsrc (pr_s0 pr)) (rd (pr_sctor pr) j))).
+Proof.
+  unfold prepare. intros H FN.
+  destruct (parse_fields (j_env jb) (j_fuel jb) PSrc (j_src jb) true) as [ps|]; [|discriminate].
+  destruct (parse_fields (j_env jb) (j_fuel jb) PDst (j_dst jb) false) as [pd|]; [|discriminate].
+  destruct (make_ctor_match _ _ _ _ _ (map ctor_field (j_dst_ctor jb)) _) as [[dctor wdst1] use_d] eqn:MD.
+  destruct (make_ctor_match _ _ _ _ _ (map ctor_field (j_src_ctor jb)) _) as [[sctor wsrc1] use_s] eqn:MS.
+  inversion H; subst; clear H. simpl.
+  assert (FR : forall cs p, In p (map ctor_field cs) -> fresh p /\ f_zero p = false /\ f_canmap p = false /\ f_caneach p = false).
+  { intros cs p I. apply in_map_iff in I. destruct I as (c & <- & _). apply ctor_field_fresh. }
+  destruct (make_ctor_match_ok _ _ _ _ _ _ _ _ _ _ FN (FR _) MS) as (L2 & C2 & _ & P2).
+  split.
+  - rewrite L2, map_length. reflexivity.
+  - intros j Hj. split; [apply C2; auto|]. intros NE. apply P2; auto.
+    intros E. apply NE. destruct (j_src_ctor jb); auto. discriminate.
+Qed.
+
+(* the argument list of the constructor call in FromX: one argument per
+   parameter, in order; the zero value of the parameter's type, or the value of a
+   name-matching readable field of the DESTINATION side (no tag map in this
+   direction) under an applicable strategy *)
+Theorem analyse_ctor_args_from sigma jb a args :
+  analyse sigma jb = Some a -> acc_guard jb -> fn_names_ok jb -> pl_ctor (a_from a) = Some args ->
+  map fst args = map cp_path (j_src_ctor jb)
+  /\ Forall2 (fun arg c =>
+       snd arg = CZero (cp_ty c)
+       \/ exists df h, snd arg = CVal (ref_of df) h /\ In df (s_dst (a_state a)) /\ f_isset df = false
+                       /\ can_name_match df (ctor_field c) [] (j_ic jb) = true
+                       /\ ctor_applicable (j_env jb) (j_funcs jb) (f_ty df) (cp_ty c) h)
+     args (j_src_ctor jb).
+Proof.
+  intros H G FN PC. destruct (analyse_state _ _ _ H) as (pr & P & S & T).
+  destruct (prepare_ctor_src _ _ P FN) as (LD & PD).
+  assert (EA : args = ctor_args false (pr_sctor pr) (s_dst (a_state a)) /\ pr_use_s pr = true).
+  { unfold analyse in H. rewrite P in H. inversion H; subst a; clear H. simpl in PC.
+    destruct (pr_use_s pr); inversion PC. auto. }
+  destruct EA as (-> & US).
+  assert (NE : j_src_ctor jb <> []).
+  { intros E. unfold prepare in P.
+    destruct (parse_fields (j_env jb) (j_fuel jb) PSrc (j_src jb) true); [|discriminate].
+    destruct (parse_fields (j_env jb) (j_fuel jb) PDst (j_dst jb) false); [|discriminate].
+    rewrite E in P. simpl in P.
+    destruct (make_ctor_match _ _ _ _ _ (map ctor_field (j_dst_ctor jb)) _) as [[? ?] ?].
+    inversion P; subst. simpl in US. discriminate. }
+  destruct (prepare_ok _ _ P G) as (I0 & _).
+  destruct (passes_ok _ _ _ _ _ _ _ I0) as (_ & CR).
+  fold (run_passes (j_env jb) (p_tags (pr_src pr)) (j_ic jb) (j_funcs jb) (pr_s0 pr)) in CR. rewrite <- S in CR.
+  destruct CR as (_ & Ld & _ & Cd).
+  set (s2 := a_state a) in *.
+  set (Q := fun (k : nat) (x : path * carg) =>
+              let c := nth k (j_src_ctor jb) cdummy in
+              fst x = cp_path c /\
+              (snd x = CZero (cp_ty c)
+               \/ exists df h, snd x = CVal (ref_of df) h /\ In df (s_dst s2) /\ f_isset df = false
+                               /\ can_name_match df (ctor_field c) [] (j_ic jb) = true
+                               /\ ctor_applicable (j_env jb) (j_funcs jb) (f_ty df) (cp_ty c) h)).
+  unfold ctor_args.
+  match goal with |- context [flat_map ?F (pr_sctor pr)] => set (FF := F) end.
+  destruct (flat_map_pointwise FF Q fdummy (pr_sctor pr) 0) as (xs & E & L & Qs).
+  { intros k Hk. simpl. destruct (PD k Hk) as (CE & PF). specialize (PF NE).
+    unfold rd in CE, PF. rewrite (nth_map_dflt ctor_field (j_src_ctor jb) cdummy fdummy k) in CE by (rewrite <- LD; exact Hk).
+    set (c := nth k (j_src_ctor jb) cdummy) in *. set (p := nth k (pr_sctor pr) fdummy) in *.
+    destruct CE as (cn & ct & cg & cs & cb & cp). simpl in ct, cp.
+    assert (CEq : core_eq (ctor_field c) p) by (repeat split; auto).
+    unfold pfinal in PF. destruct PF as (A & B & PF). unfold FF, Q. fold c.
+    destruct (f_target p) as [fi|] eqn:Tg.
+    - destruct PF as (Z & Hfi & Hset & Hnm & _ & FC & (J1 & J2 & J3 & _)). rewrite Z.
+      fold (rd (s_dst (pr_s0 pr)) fi) in *.
+      set (r0 := rd (s_dst (pr_s0 pr)) fi) in *. set (r := nth fi (s_dst s2) fdummy).
+      assert (CRr : core_eq r0 r) by (apply (Cd fi)).
+      assert (Tr : f_ty r = f_ty r0) by (destruct CRr as (_ & X & _); exact X).
+      assert (Common : In r (s_dst s2) /\ f_isset r = false
+                       /\ can_name_match r (ctor_field c) [] (j_ic jb) = true).
+      { split; [apply nth_In; rewrite Ld; exact Hfi|]. split.
+        - destruct CRr as (_ & _ & _ & X & _). rewrite X. exact Hset.
+        - rewrite <- Hnm. apply can_name_match_core.
+          + destruct CRr as (a1&a2&a3&a4&a5&a6). repeat split; congruence.
+          + destruct CEq as (a1&a2&a3&a4&a5&a6). repeat split; congruence. }
+      unfold flagcount, has_func, b2n in FC. rewrite A, B in FC. cbn [app].
+      destruct (negb (String.eqb (f_func p) "")) eqn:Fn.
+      + assert (Ca : f_canassign p = false) by (destruct (f_canassign p), (f_isconv p); simpl in FC; auto; lia).
+        assert (Cv : f_isconv p = false) by (destruct (f_canassign p), (f_isconv p); simpl in FC; auto; lia).
+        rewrite Ca, Cv. eexists. split; [simpl; reflexivity|].
+        simpl. split; [congruence|]. right. exists r, (SFunc (f_func p)). split; auto.
+        destruct Common as (c1 & c2 & c3). repeat split; auto.
+        simpl. destruct (J3 Fn) as (fn & I1 & I2 & I3 & I4). exists fn. rewrite Tr, <- ct. auto.
+      + destruct (f_isconv p) eqn:Cv.
+        * assert (Ca : f_canassign p = false) by (destruct (f_canassign p); simpl in FC; auto; lia).
+          rewrite Ca. eexists. split; [simpl; reflexivity|].
+          simpl. split; [congruence|]. right.
+          destruct (J2 eq_refl) as (j1 & j2 & j3 & j4). rewrite j4.
+          exists r, (SConv (f_ty r) (f_ty p)). split; auto.
+          destruct Common as (c1 & c2 & c3). repeat split; auto; rewrite ?Tr, <- ?ct; auto.
+        * destruct (f_canassign p) eqn:Ca; [|simpl in FC; lia].
+          eexists. split; [simpl; reflexivity|]. simpl. split; [congruence|]. right.
+          exists r, SAssign. split; auto. destruct Common as (c1 & c2 & c3). repeat split; auto.
+          simpl. rewrite Tr, <- ct. auto.
+    - rewrite PF. eexists. split; [reflexivity|]. simpl. split; [congruence|]. left. rewrite ct. reflexivity. }
+  rewrite E. simpl in Qs. split.
+  - apply (map_eq_nth fst cp_path xs (j_src_ctor jb) (([] : path), CZero (TBasic BBool)) cdummy); [lia|].
+    intros k Hk. destruct (Qs k (([] : path), CZero (TBasic BBool))) as (X & _); [lia|]. exact X.
+  - apply (Forall2_nth_intro _ xs (j_src_ctor jb) (([] : path), CZero (TBasic BBool)) cdummy); [lia|].
     intros k Hk. destruct (Qs k (([] : path), CZero (TBasic BBool))) as (_ & X); [lia|]. exact X.
 Qed.
